@@ -67,6 +67,17 @@ def gen(rng, tier):
             elif i % 6 == 1:
                 c['little'] = True      # the same file as a little-endian machine writes it, opened with endian='little'
         out.append(c)
+    for y, j, h in ((2002, 154, 22), (2019, 365, 23), (2003, 59, 21)):
+        # an input WITH ETFLAG whose steps end at midnight written the CAMx way, hour 24 of the day that ends (what the
+        # library's own reader returns for daily files): the time records keep (that day, 24.)
+        import datetime as dt_
+        c = camx.gen_uamiv_at(rng, y, j, h, with_etflag=True, tstep=1)
+        for i, (d_, t_) in enumerate(c['etflag']):
+            if t_ == 0:
+                prev = dt_.datetime.strptime('%07d' % d_, '%Y%j') - dt_.timedelta(days=1)
+                c['etflag'][i] = [int(prev.strftime('%Y%j')), 240000]
+        c.update(kind='write', vdtype='f')
+        out.append(c)
     for y, j, h in ((2000, 365, 22), (2000, 366, 22), (2000, 366, 23), (2100 - 100, 365, 23), (1996, 366, 23), (2020, 366, 22)):
         # the end of a century leap year and of ordinary leap years, written from an input without ETFLAG (the writer
         # computes the end of every step itself)
